@@ -72,6 +72,11 @@ bool RunLengthEncoder::Encode(const DmxBuffer &src,
       if (j >= src_size - 2)
         j = src_size;
 
+      // the length of a segment has to fit in the 7 bits below REPEAT_FLAG,
+      // what's left over goes into the next segment.
+      if (j - i > 0x7f)
+        j = i + 0x7f;
+
       // if we have enough room left for all the values
       if (dst_index + j - i < dst_size) {
         data[dst_index++] = j - i;
